@@ -242,7 +242,7 @@ func (e *Engine) runInit(roots []string) (err error) {
 		}
 	}()
 	// zero-valued globals for packages whose init is not run but whose flags are read
-	for _, zp := range []string{"internal/cpu", "internal/godebug", "errors"} {
+	for _, zp := range []string{"internal/cpu", "internal/godebug", "errors", "time"} {
 		if e.pkgs[zp] != nil && !e.initOK[zp] {
 			paths = append(paths, zp)
 		}
